@@ -21,6 +21,7 @@ import LA.Proofs.RuleText
 import LA.Proofs.RuleTextStr
 import LA.Proofs.Trim
 import LA.Gen.Syscalls_x86_64
+import LA.Proofs.StateFacts
 
 namespace LA.Rule
 open LA LA.Flags
@@ -2966,3 +2967,9 @@ example : (match build ⟨false, [], []⟩ (.syscall 3 (ofString "exit") (ofStri
     | _ => false) = true := by decide +kernel
 
 end LA.Rule
+
+/-! ### the code keeps nothing between calls that the model does not have -/
+
+/-- Packages rule and rule/flags write package-level variables only in the five table builders, which nothing but `init`
+mentions (regenerated list, see LA.Proofs.StateFacts): Parse, Build and ToCommandLine are functions of their arguments. -/
+theorem C07_rule_packages_keep_nothing_between_calls : LA.StateFacts.ofPkg "rule" = LA.StateFacts.ruleTableBuilders ∧ LA.StateFacts.ofPkg "rule/flags" = [] := by decide
